@@ -19,7 +19,6 @@ deriving DecidableEq, Repr, Inhabited
 structure Part where
   pid : Nat
   conn : Nat
-  lat : Lat := {}
 deriving DecidableEq, Repr, Inhabited
 
 structure Session where
@@ -37,6 +36,7 @@ structure Session where
   assetCur : Nat := 0                   -- odal state
   assets : List Asset := []
   quads : List String := []             -- dagaz: samples accepted since the grid was last created
+  lats : List (Nat × Lat) := []         -- participant id ↦ its SignedLatency record (absent = zero value)
 deriving DecidableEq, Repr, Inhabited
 
 abbrev Res := Session × List Delivery × Outcome
@@ -72,8 +72,11 @@ def Session.typeId (s : Session) (name : String) : Option Nat :=
 def Session.findComp (s : Session) (tid eid : Nat) : Option Comp :=
   s.comps.find? fun c => c.tid == tid && c.eid == eid
 
-def Session.setPart (s : Session) (p : Part) : Session :=
-  { s with parts := s.parts.map fun q => if q.pid == p.pid then p else q }
+def Session.latOf (s : Session) (pid : Nat) : Lat :=
+  ((s.lats.find? (·.1 == pid)).map (·.2)).getD {}
+
+def Session.setLat (s : Session) (pid : Nat) (l : Lat) : Session :=
+  { s with lats := (s.lats.filter (·.1 != pid)) ++ [(pid, l)] }
 
 def wrapDec (n : Nat) : Nat := if n = 0 then 4294967295 else n - 1
 
@@ -137,7 +140,7 @@ def Session.compAdd (cfg : Cfg) (s : Session) (p : Part) (rid ots tid eid : Nat)
       let c : Comp := ⟨tid, e.id, data⟩
       let s' := { s with comps := s.comps ++ [c] }
       (s', (p.conn, Out.compAddResp rid) ::
-        gate cfg fCompAdd (if (s'.subscribers tid).isEmpty then [] else s'.bcast p.pid (.compAddBcast ots c)), .ok)
+        gate cfg fCompAdd (if (s.subscribers tid).isEmpty then [] else s.bcast p.pid (.compAddBcast ots c)), .ok)
 
 def Session.compDelete (cfg : Cfg) (s : Session) (p : Part) (rid ots tid eid : Nat) : Res :=
   match s.findEnt eid with
@@ -147,7 +150,7 @@ def Session.compDelete (cfg : Cfg) (s : Session) (p : Part) (rid ots tid eid : N
     else
       let s' := { s with comps := s.comps.filter fun c => !(c.tid == tid && c.eid == e.id) }
       (s', gate cfg fCompDelete
-              (if (s'.subscribers tid).isEmpty then [] else s'.bcast p.pid (.compDeleteBcast ots tid e.id))
+              (if (s.subscribers tid).isEmpty then [] else s.bcast p.pid (.compDeleteBcast ots tid e.id))
             ++ [(p.conn, Out.compDeleteResp rid)], .ok)
 
 def Session.compUpdate (cfg : Cfg) (s : Session) (p : Part) (ots tid eid : Nat) (data : Bytes) : Res :=
@@ -158,8 +161,8 @@ def Session.compUpdate (cfg : Cfg) (s : Session) (p : Part) (ots tid eid : Nat) 
     -- `Update` fails when the component was never added: nothing changes, nothing is relayed
     if (s.findComp tid e.id).isNone then (s, [], .ok) else
     let s' := { s with comps := s.comps.map fun x => if x.tid == tid && x.eid == e.id then c else x }
-    let subs := s'.subscribers tid
-    (s', gate cfg fCompUpdate (if subs.isEmpty then [] else s'.bcastTo p.pid (.compUpdateBcast ots c) subs), .ok)
+    let subs := s.subscribers tid
+    (s', gate cfg fCompUpdate (if subs.isEmpty then [] else s.bcastTo p.pid (.compUpdateBcast ots c) subs), .ok)
 
 def Session.subscribe (s : Session) (p : Part) (rid tid : Nat) : Res :=
   if (s.typeName tid).isNone then (s, [(p.conn, .error rid ecNotFound)], .ok)
@@ -178,18 +181,18 @@ def Lat.sendPing (l : Lat) (conn id : Nat) : Lat × List Delivery :=
 def Session.latencyStart (s : Session) (p : Part) (rid iter : Nat) (wallet : String) (hint : Nat) : Res :=
   let l : Lat := { started := true, rid, iter, pings := [], uuid := s.uuid, wallet }
   let (l', ds) := l.sendPing p.conn hint
-  (s.setPart { p with lat := l' }, ds, .ok)
+  (s.setLat p.pid l', ds, .ok)
 
 def Session.onPing (s : Session) (p : Part) (rid hint : Nat) : Res :=
-  let l := p.lat
+  let l := s.latOf p.pid
   if !(l.pings.any (·.1 == rid)) then (s, [(p.conn, .error rid ecInternal)], .ok)
   else
     let l := { l with iter := wrapDec l.iter, pings := pingsInsert l.pings rid true }
     if l.iter > 0 then
       let (l', ds) := l.sendPing p.conn hint
-      (s.setPart { p with lat := l' }, ds, .ok)
+      (s.setLat p.pid l', ds, .ok)
     else
-      (s.setPart { p with lat := l },
+      (s.setLat p.pid l,
        [(p.conn, .latencyResp l.rid l.pings.length (l.pings.map (·.1)) l.uuid l.wallet)], .ok)
 
 /-! ### the core switch of `handler.handleMessage` for a joined connection
@@ -243,6 +246,16 @@ def Session.setAction (s : Session) (a : Action) : Session :=
     { s with actions := s.actions.map fun x => if x.eid == a.eid && x.name == a.name then a else x }
   else { s with actions := s.actions ++ [a] }
 
+/-- is the stored action of the same entity and name strictly newer than `a`? -/
+def Session.actionOlder (s : Session) (a : Action) : Bool :=
+  match s.actions.find? (fun x => x.eid == a.eid && x.name == a.name), a.ts with
+  | some old, some t => (match old.ts with | some t0 => t.before t0 | none => false)
+  | _, _ => false
+
+/-- the three validation steps of `handleSetEntityAction` (each refuses with BAD_REQUEST) -/
+def Session.actionOk (s : Session) (a : Action) : Bool :=
+  !(a.name == "" || a.ts.isNone) && (s.findEnt a.eid).isSome && !s.actionOlder a
+
 def Session.vikja (s : Session) (p : Part) (r : Req) : Res :=
   match r with
   | .entityDelete _ _ eid =>
@@ -252,16 +265,10 @@ def Session.vikja (s : Session) (p : Part) (r : Req) : Res :=
     match act with
     | none => (s, [(p.conn, .error rid ecBadRequest)], .ok)
     | some a =>
-      if a.name == "" || a.ts.isNone then (s, [(p.conn, .error rid ecBadRequest)], .ok)
-      else if (s.findEnt a.eid).isNone then (s, [(p.conn, .error rid ecBadRequest)], .ok)
-      else
-        let older := match s.actions.find? (fun x => x.eid == a.eid && x.name == a.name), a.ts with
-          | some old, some t => (match old.ts with | some t0 => t.before t0 | none => false)
-          | _, _ => false
-        if older then (s, [(p.conn, .error rid ecBadRequest)], .ok)
-        else
-          let s' := s.setAction a
-          (s', (p.conn, Out.actionResp rid) :: s'.bcast p.pid (.actionBcast ots a), .ok)
+      if s.actionOk a then
+        let s' := s.setAction a
+        (s', (p.conn, Out.actionResp rid) :: s'.bcast p.pid (.actionBcast ots a), .ok)
+      else (s, [(p.conn, .error rid ecBadRequest)], .ok)
   | .undecodable ty => (s, [], if ty == 101 then .connError else .ok)
   | _ => (s, [], .ok)
 
@@ -303,12 +310,18 @@ def Res.andThen (r : Res) (f : Session → Res) : Res :=
   | (s, ds, .ok) => let (s', ds', o) := f s; (s', ds ++ ds', o)
   | r => r
 
-/-- `handleMessage` for a joined participant and a non-join, non-receipt, non-ping message:
-    the core handler, then each loaded module in the order vikja, odal, dagaz. -/
-def Session.handle (cfg : Cfg) (s : Session) (p : Part) (r : Req) (hint : Nat) : Res :=
-  (((s.core cfg p r hint).andThen fun s => if cfg.vikja then s.vikja p r else (s, [], .ok)).andThen
-    fun s => if cfg.odal then s.odal p r else (s, [], .ok)).andThen
+/-- the module pass of `handleMessage`: each loaded module in the order vikja, odal, dagaz;
+    a module error ends the pass (and the connection) -/
+def Session.modules (cfg : Cfg) (s : Session) (p : Part) (r : Req) : Res :=
+  Res.andThen (Res.andThen (Res.andThen (s, [], .ok)
+    fun s => if cfg.vikja then s.vikja p r else (s, [], .ok))
+    fun s => if cfg.odal then s.odal p r else (s, [], .ok))
     fun s => if cfg.dagaz then s.dagaz p r else (s, [], .ok)
+
+/-- `handleMessage` for a joined participant and a non-join, non-receipt, non-ping message:
+    the core handler, then the module pass. -/
+def Session.handle (cfg : Cfg) (s : Session) (p : Part) (r : Req) (hint : Nat) : Res :=
+  Res.andThen (s.core cfg p r hint) fun s => s.modules cfg p r
 
 /-! ### departure (`leaveSession`) at session level -/
 
@@ -316,22 +329,20 @@ def Session.handle (cfg : Cfg) (s : Session) (p : Part) (r : Req) (hint : Nat) :
 def Session.doomed (s : Session) (pid : Nat) : List Entity :=
   s.ents.filter fun e => e.owner == pid && !e.persist
 
-/-- remove one doomed entity and tell the others (the leaver is still a participant, and skipped) -/
-def Session.leaveEntity (cfg : Cfg) (pid : Nat) (acc : Session × List Delivery) (e : Entity) :
-    Session × List Delivery :=
-  let s' := acc.1.removeEntity e.id
-  (s', acc.2 ++ gate cfg fEntityDelete (s'.bcast pid (.entityDeleteBcast none e.id)))
-
-/-- The whole of `leaveSession` except the registry part. -/
+/-- The whole of `leaveSession` except the registry part: the modules' disconnect hooks, the end of the
+    leaver's subscriptions, the removal of its non-persistent entities with their components (one delete
+    broadcast each, while the leaver is still a participant and therefore skipped), the removal of the
+    participant and the leave broadcast. -/
 def Session.leave (cfg : Cfg) (s : Session) (pid : Nat) : Session × List Delivery :=
   let dead := (s.doomed pid).map (·.id)
-  -- modules' HandleDisconnect
-  let s := if cfg.vikja then { s with actions := s.actions.filter fun a => !dead.contains a.eid } else s
-  let s := if cfg.odal then { s with assets := s.assets.filter fun a => !dead.contains a.eid } else s
-  -- UnsubscribeByParticipant
-  let s := { s with subs := s.subs.filter (·.2 != pid) }
-  let (s, ds) := (s.doomed pid).foldl (Session.leaveEntity cfg pid) (s, [])
-  let s := { s with parts := s.parts.filter (·.pid != pid) }
-  (s, ds ++ gate cfg fLeave (s.bcast pid (.leaveBcast pid)))
+  let s1 : Session :=
+    { s with actions := if cfg.vikja then s.actions.filter (fun a => !dead.contains a.eid) else s.actions,
+             assets := if cfg.odal then s.assets.filter (fun a => !dead.contains a.eid) else s.assets,
+             subs := s.subs.filter (·.2 != pid),
+             comps := s.comps.filter (fun c => !dead.contains c.eid),
+             ents := s.ents.filter (fun e => !(e.owner == pid && !e.persist)) }
+  let ds := dead.flatMap fun eid => gate cfg fEntityDelete (s1.bcast pid (.entityDeleteBcast none eid))
+  let s2 := { s1 with parts := s1.parts.filter (·.pid != pid), lats := s1.lats.filter (·.1 != pid) }
+  (s2, ds ++ gate cfg fLeave (s2.bcast pid (.leaveBcast pid)))
 
 end Hagall
